@@ -1,4 +1,5 @@
 import Arc.Model.C32
+import Arc.Generated.C32
 /-!
 C32 — "Writes land only where the caller is allowed to write".
 
@@ -596,4 +597,168 @@ theorem C32_payload_inert_lineprotocol (c : Cfg) (ep : LpEp) (hdr qdb qb qm : Na
     · simp only [h1, Bool.not_false, if_true]
 
 example : pointSkel (.p wCpu [kDb, kUMeas] [kM, [118]]) = pointSkel (.p wCpu [] [[118]]) := rfl
+/-! ## buffer key → flush → storage path -/
+
+theorem splitKey_bufferKey : ∀ (db m : Name), slash ∉ db → splitKey (db ++ slash :: m) = (db, some m)
+  | [], m, _ => by simp [splitKey]
+  | c :: cs, m, h => by
+    have hc : c ≠ slash := fun e => h (by simp [e])
+    have ht : slash ∉ cs := fun e => h (List.mem_cons_of_mem _ e)
+    simp [splitKey, hc, splitKey_bufferKey cs m ht]
+
+theorem isNameChar_ne_slash (c : UInt8) (h : isNameChar c = true) : c ≠ slash := by
+  intro e; subst e; revert h; decide
+
+theorem validName_no_slash (n : Nat) : ∀ s : Name, validName n s = true → slash ∉ s
+  | [], h => by simp [validName] at h
+  | c :: cs, h => by
+    simp only [validName, Bool.and_eq_true, List.all_eq_true, decide_eq_true_eq] at h
+    intro hm
+    rcases List.mem_cons.1 hm with e | e
+    · have : isNameChar c = true := by simp [isNameChar, h.1.1]
+      exact isNameChar_ne_slash c this e.symm
+    · exact isNameChar_ne_slash _ (h.1.2 _ e) rfl
+
+/-- the flush of a buffer key written for (db, m) produces exactly generateStoragePath(db, m, …) whenever the
+database contains no '/': FlushAll's split at the first slash is the inverse of the key concatenation -/
+theorem C32_flush_path (k : Key) (part stamp : Name) (h : slash ∉ k.db) :
+    flushPath (bufferKey k) part stamp = some (storagePath k.db k.m part stamp) := by
+  simp [flushPath, bufferKey, splitKey_bufferKey k.db k.m h]
+
+/-- C32_full at the storage level, line protocol: every file a request makes the flush write is
+`db/m/<partition>/m_<stamp>` with db = the request's database (slash-free) and m permission-checked -/
+theorem C32_full_lineprotocol_paths (c : Cfg) (ep : LpEp) (hdr qdb qb qm : Name) (pts : List Point) (k : Key)
+    (part stamp : Name) (hact : c.active = true) (hk : k ∈ (lpHandle c ep hdr qdb qb qm pts).keys) :
+    flushPath (bufferKey k) part stamp =
+        some (storagePath (lpHandle c ep hdr qdb qb qm pts).db k.m part stamp) ∧
+      k.m ∈ (lpHandle c ep hdr qdb qb qm pts).checked ∧ slash ∉ k.m := by
+  obtain ⟨hl, _, hv, hvm⟩ := C32_full_lineprotocol c ep hdr qdb qb qm pts k hact hk
+  refine ⟨?_, hl.2.1, validName_no_slash _ _ hvm⟩
+  rw [← hl.1]
+  exact C32_flush_path k part stamp (validName_no_slash _ _ hv)
+
+theorem C32_full_msgpack_paths_partial (c : Cfg) (hdr : Name) (top : Top) (k : Key) (part stamp : Name)
+    (hact : c.active = true) (hk : k ∈ (mpHandle c hdr top).keys) (carve : k.m ≠ []) :
+    flushPath (bufferKey k) part stamp = some (storagePath (mpHandle c hdr top).db k.m part stamp) ∧
+      k.m ∈ (mpHandle c hdr top).checked ∧ slash ∉ k.m := by
+  obtain ⟨hl, hv, hvm⟩ := C32_full_msgpack_partial c hdr top k hact hk carve
+  refine ⟨?_, hl.2.1, validName_no_slash _ _ hvm⟩
+  rw [← hl.1]
+  exact C32_flush_path k part stamp (validName_no_slash _ _ hv)
+
+example : flushPath (bufferKey ⟨wDb, wCpu⟩) [80] [83] = some [100, 98, 47, 99, 112, 117, 47, 80, 47, 99, 112, 117, 95, 83] := by
+  decide
+
+/-! ## replication -/
+
+theorem C32_envelope_roundtrip (db : Name) (inner : List UInt8) (hlen : db.length < 65536) (hin : db ++ inner ≠ []) :
+    parseEnvelope (envelope db inner) = (db, inner) := by
+  have h1 : (UInt8.ofNat (db.length / 256)).toNat = db.length / 256 := by
+    simp; omega
+  have h2 : (UInt8.ofNat (db.length % 256)).toNat = db.length % 256 := by
+    simp
+  have h3 : db.length / 256 * 256 + db.length % 256 = db.length := by omega
+  simp only [parseEnvelope, envelope, h1, h2, h3]
+  simp [hin, List.take_left', List.drop_left']
+  intro h; omega
+
+/-- C32_replicated: whatever the inner payload — including cells named `_database` / `database` — every key a
+replicated entry writes carries the database ParseEnvelope extracted (the envelope's, else "default") -/
+theorem C32_replicated (db : Name) (i : Inner) (k : Key) (hk : k ∈ applyInner db i) : k.db = db := by
+  cases i with
+  | colmap m n =>
+    cases m with
+    | none => simp [applyInner] at hk
+    | some m =>
+      by_cases h : (decide (m ≠ []) && decide (n ≠ 0)) = true
+      · simp only [applyInner, h, if_true, List.mem_singleton] at hk; rw [hk]
+      · simp only [applyInner, h, Bool.false_eq_true, if_false, List.not_mem_nil] at hk
+  | rows rs =>
+    simp only [applyInner, List.mem_map] at hk
+    obtain ⟨m, _, rfl⟩ := hk
+    rfl
+  | garbage => simp [applyInner] at hk
+
+/-- an enveloped (raw columnar) WAL entry is applied under the WRITER's database and the record's own measurement -/
+theorem C32_replicated_enveloped (db : Name) (m : Option Name) (n : Nat) (k : Key)
+    (hk : k ∈ applyWal (.raw db m n)) : k.db = db ∧ m = some k.m ∧ k.m ≠ [] := by
+  cases m with
+  | none => simp [applyWal, applyInner] at hk
+  | some m =>
+    by_cases h : (decide (m ≠ []) && decide (n ≠ 0)) = true
+    · simp only [applyWal, applyInner, h, if_true, List.mem_singleton] at hk
+      subst hk
+      simp at h
+      exact ⟨rfl, rfl, h.1⟩
+    · simp only [applyWal, applyInner, h, Bool.false_eq_true, if_false, List.not_mem_nil] at hk
+
+/-- FULL statement for the replicated copy (FALSE on the current code, witnesses below):
+`∀ o k, k ∈ replicate o → k ∈ o.keys`.  What holds: entries that travel in an envelope. -/
+theorem C32_replicated_full_partial (c : Cfg) (hdr : Name) (m : Name) (cols : List Name) (k : Key)
+    (hk : k ∈ replicate (mpHandle c hdr (.map (.col (.s m) cols)))) :
+    k ∈ (mpHandle c hdr (.map (.col (.s m) cols))).keys := by
+  unfold replicate at hk
+  unfold mpHandle at hk ⊢
+  simp only [decodeTop] at hk ⊢
+  generalize (if hdr = [] then defaultDB else hdr) = db at hk ⊢
+  by_cases h1 : validDB db = true
+  · by_cases h2 : (dedupe (extractIs (.cons (.col (.s m) cols) .nil))).all validMeas = true
+    · by_cases h3 : (c.active && !(dedupe (extractIs (.cons (.col (.s m) cols) .nil))).all (c.allow db)) = true
+      · simp [h1, h2, h3] at hk
+      · simp only [h1, h2, h3, Bool.not_true, Bool.false_eq_true, if_false] at hk ⊢
+        simp only [writeTop, dedupe, List.map_nil, List.map_cons, List.flatMap_cons, List.flatMap_nil,
+          List.append_nil, mpWal, MVal.strOnly, mname] at hk ⊢
+        obtain ⟨hd, hm, _⟩ := C32_replicated_enveloped db (some m) cols.length k hk
+        cases k with
+        | mk kd km =>
+          simp only at hd hm
+          simp only [Option.some.injEq] at hm
+          subst hd; subst hm
+          simp
+    · simp [h1, h2, reject] at hk
+  · simp [h1, reject] at hk
+
+/-- WITNESS (confirmed end to end on the real code: handler → ArrowBuffer → wal.Writer replication hook →
+Receiver.applyEntry → buildReplicationIngestHandler; monitor
+`replicated-row-stored-outside-request-database:unenveloped-wal-rows`): a line-protocol write `cpu v=1` to database
+"db" is buffered under db/cpu on the writer, reaches the WAL through Append (no envelope), and the reader
+stores the replicated rows under default/cpu. -/
+theorem C32_replicated_full_witness_database :
+    let o := lpHandle wCfg .simple wDb [] [] [] [.p wCpu [] [[118]]]
+    o.keys = [⟨wDb, wCpu⟩] ∧ replicate o = [⟨defaultDB, wCpu⟩] := by
+  decide
+
+/-- WITNESS (monitor `replicated-row-redirected-by-payload-field:measurement`): a TAG named `_measurement`
+overwrites the routing entry of the WAL row; the reader files the row under the tag's VALUE -/
+theorem C32_replicated_full_witness_measurement :
+    let o := lpHandle wCfg .simple wDb [] [] [] [.p wCpu [kUMeas] [[118]]]
+    o.keys = [⟨wDb, wCpu⟩] ∧ o.checked = [wCpu] ∧
+      replicate o = [⟨defaultDB, [101, 118, 105, 108, 95, 109]⟩] := by
+  decide
+/-! ## tie to the current source (facts regenerated by go/factgen/cmd/c32 on every run) -/
+
+/-- the quirks and tables the model hard-wires are the ones the source has NOW: every record case of
+extractMeasurements is guarded by `Measurement != ""` and lists are walked (model: `nonEmpty`, `extractIs`);
+msgpack validates names before the permission check, line protocol after it, both before the write; the
+buffer key is `database + "/" + measurement`, split at '/', path format of generateStoragePath; rowsToColumns'
+filter list and the `_measurement → measurement → m` chain; ParseEnvelope's default; the replicated-row path
+never reads `_database`; importPreamble's failure returns are swallowed.  Editing any of these in /repo
+regenerates `Arc.Generated.C32` and this proof stops checking (by design: the model must follow). -/
+theorem C32_facts_tied :
+    Generated.C32.extractCases.all (·.2) = true ∧ Generated.C32.extractCases.length = 3 ∧
+    Generated.C32.extractRecursesIntoLists = true ∧
+    Generated.C32.msgpackOrder = ["Decode", "isValidDatabaseName", "extractMeasurements", "isValidMeasurementName",
+      "checkWritePermissions", "Write"] ∧
+    Generated.C32.lpOrder = ["isValidDatabaseName", "ParseBatchWithPrecision", "checkWritePermissions",
+      "isValidMeasurementName", "WriteColumnarRecord"] ∧
+    Generated.C32.bufferKeyExprs = ["database+\"/\"+record.Measurement", "database+\"/\"+measurement"] ∧
+    Generated.C32.splitSeparator = [slash] ∧
+    Generated.C32.storagePathFormat = "%s/%s/%s/%s/%s/%s/%s_%s_%09d.parquet" ∧
+    Generated.C32.routingKeys = routingKeys ∧
+    Generated.C32.measurementFallback = [kUMeas, kMeas, kM] ∧
+    Generated.C32.envelopeDefaultDB = defaultDB ∧
+    Generated.C32.replicationUsesRowDatabase = false ∧
+    Generated.C32.importPreambleSwallowsErrors = true := by
+  decide
+
 end Arc.C32
